@@ -195,7 +195,7 @@ func cmdWorker(args []string) int {
 		if out.Fail != nil {
 			orig, _ := json.Marshal(plan)
 			exec := func(p engine.Plan) engine.Outcome {
-				o, _ := engine.RunInProcess(sc, p, engine.NewStats(), status, false)
+				o, _ := engine.RunInProcessUntil(sc, p, engine.NewStats(), status, false, time.Now().Add(3*time.Second))
 				return o
 			}
 			box := 20 * time.Second
